@@ -47,6 +47,9 @@ FstSeq(p) == [i \in 1..(MaxSlot + 1) |-> p.fst[i - 1]]
 Obs(p) == [hi |-> p.highest, fup |-> p.fup, ret |-> p.retained, fst |-> FstSeq(p),
            certs |-> p.certs,
            ready |-> {p.prready[i] : i \in 1..Len(p.prready)},
+           \* parents some registered block may still be waiting on (the code keeps a subset:
+           \* it forgets a parent once its children were notified)
+           wpar |-> {x[2] : x \in p.bpar},
            panic |-> p.panic]
 
 EvSet(o) == {o.ev[i] : i \in 1..Len(o.ev)}
